@@ -248,6 +248,9 @@ Proof. vm_compute. reflexivity. Qed.
 Lemma trie_get_nil_true : trie_get [] true = OMore.
 Proof. vm_compute. reflexivity. Qed.
 
+(* keep tactics from unfolding the big generated constants; vm_compute still sees through *)
+Opaque input_trie keyconv input_sequences.
+
 (* decisive (and error-decisive), one statement *)
 Lemma process_ext em c : forall d, c <> [] ->
   ext_res d (process_keyqueue em c true) (process_keyqueue em (c ++ d) true).
@@ -415,4 +418,181 @@ Proof.
   destruct (process_keyqueue em (k :: tl') true) as [[run rest]| |e]; cbn [flag_opt] in IH; try rewrite IH;
     cbn [flag_opt]; auto.
   destruct (meta_wrap run rest) as [[a b]| |]; cbn [flag_opt]; auto.
+Qed.
+
+(* ------------------------------------------------------------------ *)
+(* progress: what is returned as remaining codes is a suffix, at least one code is consumed,
+   at least one event is reported *)
+Definition is_suffix (rest keys : list Z) : Prop := exists p, keys = p ++ rest.
+
+Lemma is_suffix_refl l : is_suffix l l.
+Proof. exists []; reflexivity. Qed.
+
+Lemma is_suffix_cons k rest keys : is_suffix rest keys -> is_suffix rest (k :: keys).
+Proof. intros [p ->]. exists (k :: p); reflexivity. Qed.
+
+Lemma is_suffix_skipn n (l : list Z) : is_suffix (skipn n l) l.
+Proof. exists (firstn n l). symmetry; apply firstn_skipn. Qed.
+
+Lemma sgr_scan_split keys : forall v t r, sgr_scan keys = Some (v, t, r) -> keys = v ++ t :: r.
+Proof.
+  induction keys as [|k keys IH]; intros v t r H; cbn in H; [discriminate|].
+  destruct ((k =? 77) || (k =? 109)).
+  - inversion H; subst; reflexivity.
+  - destruct (sgr_scan keys) as [[[v' t'] r']|]; [|discriminate].
+    inversion H; subst. cbn. f_equal. apply IH; reflexivity.
+Qed.
+
+Lemma sgr_scan_term keys : forall v t r, sgr_scan keys = Some (v, t, r) -> t = 77 \/ t = 109.
+Proof.
+  induction keys as [|k keys IH]; intros v t r H; cbn in H; [discriminate|].
+  destruct ((k =? 77) || (k =? 109)) eqn:E.
+  - inversion H; subst. apply orb_true_iff in E. destruct E as [E|E]; apply Z.eqb_eq in E; auto.
+  - destruct (sgr_scan keys) as [[[v' t'] r']|]; [|discriminate].
+    inversion H; subst. eapply IH; reflexivity.
+Qed.
+
+Lemma read_mouse_info_suffix keys more ev rest :
+  read_mouse_info keys more = OOk (Some (ev, rest)) -> is_suffix rest keys.
+Proof.
+  destruct keys as [|k0 [|k1 [|k2 r]]]; cbn; try (destruct more; discriminate).
+  intros H; inversion H; subst. exists [k0; k1; k2]; reflexivity.
+Qed.
+
+Lemma read_sgrmouse_info_suffix keys more ev rest :
+  read_sgrmouse_info keys more = OOk (Some (ev, rest)) -> is_suffix rest keys.
+Proof.
+  unfold read_sgrmouse_info. destruct keys as [|k keys]; [destruct more; discriminate|].
+  destruct (sgr_scan (k :: keys)) as [[[v t] r]|] eqn:E; [|destruct more; discriminate].
+  destruct (sgr_event v t) as [[ev'|]| |e]; try discriminate.
+  intros H; inversion H; subst. exists (v ++ [t]). rewrite <- app_assoc. apply sgr_scan_split; exact E.
+Qed.
+
+Lemma get_recurse_suffix keys : forall root more ev rest,
+  get_recurse root keys more = OOk (Some (ev, rest)) -> is_suffix rest keys.
+Proof.
+  induction keys as [|k keys IH]; intros root more ev rest; destruct root as [name|ch].
+  - rewrite get_recurse_leaf. destruct (zs_eqb name str_mouse); [apply read_mouse_info_suffix|].
+    destruct (zs_eqb name str_sgrmouse); [apply read_sgrmouse_info_suffix|].
+    intros H; inversion H; subst. apply is_suffix_refl.
+  - cbn. destruct more; discriminate.
+  - rewrite get_recurse_leaf. destruct (zs_eqb name str_mouse); [apply read_mouse_info_suffix|].
+    destruct (zs_eqb name str_sgrmouse); [apply read_sgrmouse_info_suffix|].
+    intros H; inversion H; subst. apply is_suffix_refl.
+  - rewrite get_recurse_node. destruct (assoc k ch); [|discriminate].
+    intros H. apply is_suffix_cons. eapply IH; exact H.
+Qed.
+
+Lemma cpr_x_suffix keys : forall x v rest, cpr_x keys x = CXDone v rest -> is_suffix rest keys.
+Proof.
+  induction keys as [|k keys IH]; intros x v rest; cbn; [discriminate|].
+  destruct (k =? 82).
+  - destruct (x =? 0); [discriminate|]. intros H; inversion H; subst. exists [k]; reflexivity.
+  - destruct ((k <? 48) || (57 <? k)); [discriminate|].
+    destruct ((x =? 0) && (k =? 48)); [discriminate|].
+    intros H. apply is_suffix_cons. eapply IH; exact H.
+Qed.
+
+Lemma cpr_y_suffix keys : forall y v rest, cpr_y keys y = CYBreak v rest -> is_suffix rest keys.
+Proof.
+  induction keys as [|k keys IH]; intros y v rest; cbn; [discriminate|].
+  destruct (k =? 59).
+  - destruct (y =? 0); [discriminate|]. intros H; inversion H; subst. exists [k]; reflexivity.
+  - destruct ((k <? 48) || (57 <? k)); [discriminate|].
+    destruct ((y =? 0) && (k =? 48)); [discriminate|].
+    intros H. apply is_suffix_cons. eapply IH; exact H.
+Qed.
+
+Lemma is_suffix_trans a b c : is_suffix a b -> is_suffix b c -> is_suffix a c.
+Proof. intros [p ->] [q ->]. exists (q ++ p). apply app_assoc. Qed.
+
+Lemma read_cursor_position_suffix keys more ev rest :
+  read_cursor_position keys more = OOk (Some (ev, rest)) -> is_suffix rest keys.
+Proof.
+  unfold read_cursor_position. destruct keys as [|k0 r]; [destruct more; discriminate|].
+  destruct (negb (k0 =? 91)); [discriminate|].
+  destruct (cpr_y r 0) as [|y r2|y] eqn:Ey; try (destruct more; discriminate).
+  destruct r2 as [|k2 r2]; [destruct more; discriminate|].
+  destruct (cpr_x (k2 :: r2) 0) as [|x rest'|] eqn:Ex; try (destruct more; discriminate).
+  intros H; inversion H; subst. apply is_suffix_cons.
+  eapply is_suffix_trans; [eapply cpr_x_suffix; exact Ex | eapply cpr_y_suffix; exact Ey].
+Qed.
+
+Lemma trie_get_in_suffix root keys more ev rest :
+  trie_get_in root keys more = OOk (Some (ev, rest)) -> is_suffix rest keys.
+Proof.
+  unfold trie_get_in. destruct (get_recurse root keys more) as [[[ev' rest']|]| |e] eqn:E; try discriminate.
+  - intros H; inversion H; subst. eapply get_recurse_suffix; exact E.
+  - apply read_cursor_position_suffix.
+Qed.
+
+Lemma wide_step_progress em code tl more evs rest :
+  wide_step em code tl more = Some (OOk (evs, rest)) -> evs <> [] /\ is_suffix rest tl.
+Proof.
+  unfold wide_step. destruct (enc_is_wide em && (code <? 256) && negb (within_double_byte [code] 0 0 =? 0)); [|discriminate].
+  destruct tl as [|k r]; [destruct more; discriminate|].
+  destruct ((k <? 256) && negb (within_double_byte [code; k] 0 1 =? 0)); [|discriminate].
+  intros H; inversion H; subst. split; [discriminate|]. exists [k]; reflexivity.
+Qed.
+
+Lemma utf8_step_progress em code tl more evs rest :
+  utf8_step em code tl more = Some (OOk (evs, rest)) -> evs <> [] /\ is_suffix rest tl.
+Proof.
+  unfold utf8_step. destruct (enc_is_utf8 em && (127 <? code) && (code <? 256)); [|discriminate].
+  set (need := if Z.land code 224 =? 192 then Some 1%nat
+               else if Z.land code 240 =? 224 then Some 2%nat
+               else if Z.land code 248 =? 240 then Some 3%nat else None).
+  destruct need as [n|].
+  - destruct (utf8_check n tl).
+    + destruct more; [discriminate|]. intros H; inversion H; subst. split; [discriminate|apply is_suffix_refl].
+    + intros H; inversion H; subst. split; [discriminate|apply is_suffix_refl].
+    + destruct (utf8_decode code n (firstn n tl)); intros H; inversion H; subst;
+        (split; [discriminate|]); [apply is_suffix_skipn|apply is_suffix_refl].
+  - intros H; inversion H; subst. split; [discriminate|apply is_suffix_refl].
+Qed.
+
+Lemma meta_wrap_ok run rest evs rest' :
+  meta_wrap run rest = OOk (evs, rest') -> evs <> [] /\ rest' = rest.
+Proof.
+  unfold meta_wrap. destruct run as [|r0 rt]; [discriminate|].
+  destruct (is_mouse_event r0); [intros H; inversion H; subst; split; [discriminate|reflexivity]|].
+  destruct r0; try discriminate.
+  destruct (zs_eqb name str_esc || contains_sub str_meta name); intros H; inversion H; subst;
+    (split; [discriminate|reflexivity]).
+Qed.
+
+Lemma process_progress em c : forall more evs rest,
+  process_keyqueue em c more = OOk (evs, rest) ->
+  evs <> [] /\ exists p, p <> [] /\ c = p ++ rest.
+Proof.
+  induction c as [|code tl IH]; intros more evs rest; [cbn; discriminate|].
+  assert (G : forall (evs : list event) (rest : list Z), evs <> [] /\ is_suffix rest tl ->
+              evs <> [] /\ exists p, p <> [] /\ code :: tl = p ++ rest).
+  { intros e r [He [p ->]]. split; [exact He|]. exists (code :: p). split; [discriminate|reflexivity]. }
+  assert (S1 : forall ev, OOk ([ev], tl) = OOk (evs, rest) -> evs <> [] /\ exists p, p <> [] /\ code :: tl = p ++ rest).
+  { intros ev H; inversion H; subst. apply G. split; [discriminate|apply is_suffix_refl]. }
+  rewrite process_eq.
+  destruct ((32 <=? code) && (code <=? 126)); [apply S1|].
+  destruct (assoc code keyconv); [apply S1|].
+  destruct ((0 <? code) && (code <? 27)); [apply S1|].
+  destruct ((27 <? code) && (code <? 32)); [apply S1|].
+  destruct (wide_step em code tl more) as [[[evs' rest']| |e]|] eqn:Ew; try discriminate.
+  { intros H; inversion H; subst. apply G. eapply wide_step_progress; exact Ew. }
+  destruct (utf8_step em code tl more) as [[[evs' rest']| |e]|] eqn:Eu; try discriminate.
+  { intros H; inversion H; subst. apply G. eapply utf8_step_progress; exact Eu. }
+  destruct ((127 <? code) && (code <? 256)); [apply S1|].
+  destruct (negb (code =? 27)); [apply S1|].
+  destruct (trie_get tl more) as [[[ev rest']|]| |e] eqn:Et; try discriminate.
+  { intros H; inversion H; subst. apply G. split; [discriminate|]. eapply trie_get_in_suffix; exact Et. }
+  destruct tl as [|k tl']; [apply S1|].
+  destruct (process_keyqueue em (k :: tl') more) as [[run rest']| |e] eqn:Ep; try discriminate.
+  intros H. apply meta_wrap_ok in H. destruct H as [He ->]. apply G. split; [exact He|].
+  destruct (IH _ _ _ Ep) as [_ [p [_ Hp]]]. exists p; exact Hp.
+Qed.
+
+Lemma process_shorter em c more evs rest :
+  process_keyqueue em c more = OOk (evs, rest) -> (length rest < length c)%nat.
+Proof.
+  intros H. destruct (process_progress _ _ _ _ _ H) as [_ [p [Hp ->]]].
+  rewrite app_length. destruct p; [congruence|cbn; lia].
 Qed.
